@@ -3,6 +3,7 @@ pub mod common;
 pub mod engine;
 pub mod f2;
 pub mod f3;
+pub mod f4;
 pub mod props;
 pub mod rogue_noise;
 
